@@ -67,10 +67,10 @@ class Class:
 
     # type expressions at module level:  A | B | None, Generic[T]
     def __or__(self, o):
-        return TypeDummy()
+        return UnionT.of(self, o)
 
     def __ror__(self, o):
-        return TypeDummy()
+        return UnionT.of(o, self)
 
     def __getitem__(self, item):
         return self
@@ -93,6 +93,38 @@ class TypeDummy:
 
     def __repr__(self):
         return "<typing>"
+
+
+class UnionT(TypeDummy):
+    """`A | B` of classes (PEP 604): as an annotation it is never inspected, but isinstance(x, A | B) is the
+    disjunction over the members, so they are kept.  members is None when a member is not a class (then
+    isinstance against it is outside the modelled subset)."""
+
+    def __init__(self, members):
+        self.members = members
+
+    @staticmethod
+    def of(a, b):
+        ms = []
+        for x in (a, b):
+            if isinstance(x, UnionT):
+                if x.members is None:
+                    return UnionT(None)
+                ms.extend(x.members)
+            elif isinstance(x, Class) or x is None:
+                ms.append(x)
+            else:
+                return UnionT(None)
+        return UnionT(tuple(ms))
+
+    def __or__(self, o):
+        return UnionT.of(self, o)
+
+    def __ror__(self, o):
+        return UnionT.of(o, self)
+
+    def __repr__(self):
+        return f"<union {self.members}>"
 
 
 class Instance:
